@@ -125,3 +125,33 @@ def p_deg(a):
 
 def p_atoms(a):
     return {i for m in a for i, _ in m}
+
+
+def p_subst(a, sub):
+    """replace atoms by polynomials: sub = {atom_id: poly}"""
+    if not a:
+        return a
+    hit = False
+    for m in a:
+        for i, _ in m:
+            if i in sub:
+                hit = True
+                break
+        if hit:
+            break
+    if not hit:
+        return a
+    r = {}
+    for m, c in a.items():
+        term = {ONE: c}
+        keep = []
+        for i, e in m:
+            if i in sub:
+                for _ in range(e):
+                    term = p_mul(term, sub[i])
+            else:
+                keep.append((i, e))
+        if keep:
+            term = p_mul(term, {tuple(keep): Fraction(1)})
+        r = p_add(r, term)
+    return r
